@@ -298,7 +298,8 @@ func isLogStmt(s ast.Stmt) bool {
 	if !ok {
 		return false
 	}
-	return strings.HasPrefix(srcOf(es.X), "log.")
+	// a log line — and nothing hidden in its arguments: every call inside it is one of the calls known to be free of effects
+	return strings.HasPrefix(srcOf(es.X), "log.") && callsAllowed(es.X)
 }
 
 func leanType(k kind) string {
